@@ -34,6 +34,8 @@ func init() {
 	reg("c02", "Reset", func(a []int64) { c02.Reset() })
 	reg("c02", "Fresh", func(a []int64) { c02.Fresh(int(a[0])) })
 	reg("c02", "Copy", func(a []int64) { c02.Copy(int(a[0]), int(a[1])) })
+	reg("c01", "Step2", func(a []int64) { c01.Step2(int(a[0]), int(a[1]), int(a[2]), int(a[3]), int(a[4])) })
+	reg("c02", "Lockstep2", func(a []int64) { c02.Lockstep2(int(a[0]), int(a[1]), int(a[2])) })
 	reg("c02", "Lockstep", func(a []int64) { c02.Lockstep(int(a[0]), int(a[1])) })
 	reg("c06", "Program", func(a []int64) { c06.Program(a[0], int(a[1]), int(a[2]), int(a[3])) })
 	reg("c08", "Step", func(a []int64) { c08.Step(int(a[0]), int(a[1]), int(a[2])) })
